@@ -100,6 +100,10 @@ struct Plan {
     /// where-clause / trait bound text appended.. (unused)
     #[serde(default)]
     ident_renames: HashMap<String, String>,
+    /// text inserted right after the opening brace of a trait / impl item (item key -> text):
+    /// ghost declarations only (spec fns of the contract layer)
+    #[serde(default)]
+    item_inject: HashMap<String, String>,
 }
 
 #[derive(Deserialize, Clone)]
@@ -136,6 +140,8 @@ struct FnInfo {
     contracted: bool,
     external: bool,
     loops: usize,
+    /// declaration without body (trait method signature): a contract, not a verified function
+    decl: bool,
 }
 
 enum Part {
@@ -164,6 +170,7 @@ struct Ctx<'p> {
 }
 
 struct FnState {
+    decl: bool,
     key: String,
     loop_ord: usize,
     chain_ord: usize,
@@ -292,6 +299,7 @@ impl<'p> Ctx<'p> {
             }
         }
         self.fn_stack.push(FnState {
+            decl: block.is_none(),
             key,
             loop_ord: 0,
             chain_ord: 0,
@@ -322,6 +330,7 @@ impl<'p> Ctx<'p> {
             contracted: f.contract.is_some(),
             external: f.external,
             loops: f.loop_ord,
+            decl: f.decl,
         });
     }
 
@@ -1202,6 +1211,17 @@ fn main() {
         }
         if let Some(a) = plan.item_attrs.get(&key) {
             cx.insert(s, format!("{}\n", a));
+        }
+        if let Some(t) = plan.item_inject.get(&key) {
+            let brace = match item {
+                syn::Item::Trait(t) => Some(t.brace_token.span.open().byte_range().start),
+                syn::Item::Impl(t) => Some(t.brace_token.span.open().byte_range().start),
+                _ => None,
+            };
+            match brace {
+                Some(b) => cx.insert(b + 1, format!("\n{}\n", t)),
+                None => cx.out.errors.push(format!("inject: `{}` is not a trait or impl", key)),
+            }
         }
         cx.visit_item(item);
         kept.push((s, e, key));
